@@ -57,6 +57,10 @@ def items(tier, seed):
     gens = [
         pomdpspec.enum_pomdps(2, 2, 1, [RP['mixed']], [(), (1,)], [((0, F(1, 4)), (1, F(3, 4)))], [F(9, 10)], kernel_pairs='some'),
     ]
+    # absorbing state 1 pays nothing: where it also self-loops under both actions the POMDP is NOT in the K3 class, so the
+    # episode-ending clauses are judged strictly on inputs that do have an absorbing state
+    zero_at_1 = lambda s, a: F(0) if s == 1 else F([1, -1][a])
+    gens.append(pomdpspec.enum_pomdps(2, 2, 1, [zero_at_1], [(1,)], [((0, F(1, 4)), (1, F(3, 4)))], [F(9, 10)], kernel_pairs='some'))
     if tier == 'thorough':
         gens.append(pomdpspec.enum_pomdps(2, 2, 1, [RP['state']], [(0,)], [((0, F(1, 2)), (1, F(1, 2)))], [F(1, 2)], kernel_pairs='some'))
     i = 0
